@@ -569,6 +569,12 @@ def op_points(env):
     columns = {lon_name: ['' if r[0] != r[0] else repr(r[0]) for r in rows], lat_name: ['' if r[1] != r[1] else repr(r[1]) for r in rows],
                'name': [pick(rng, ['site%d', 'reef #%d', 'st. %d; north', 'a b %d']) % i for i in range(len(rows))], 'val': [repr(round(float(v), 3)) for v in rng.uniform(0, 9, size=len(rows))],
                'n': [str(int(v)) for v in rng.integers(0, 99, size=len(rows))]}
+    if blank_row and chance(rng, 0.5):
+        # ... and sometimes the whole record is empty (",,,,"): still a record, still a request that lies nowhere
+        k_blank = [i for i, r in enumerate(rows) if r[0] != r[0]][0]
+        for col in ('name', 'val', 'n'):
+            columns[col][k_blank] = ''
+        obs.cls('points:csv-with-entirely-empty-record')
     if len(rows) >= 2 and chance(rng, 0.4):
         # blank cells in the non-coordinate columns (a missing site name, a missing measurement): the row still is a point
         obs.cls('points:csv-with-blank-cells')
